@@ -15,6 +15,7 @@ from hypothesis import strategies as st
 
 from .. import formcheck, inputs, kernels, procs, specs, strategies
 from ..common import Run, ShardResult, run_shards, scratch, spec_hash, verif_seed
+from ..common import thorough  # noqa: E402
 from ..hyp import Outcome, drive
 
 PROP = "C20"
@@ -307,7 +308,7 @@ def shard(shard, nshards, n, seed):
 
 def run(tier: str) -> int:
     run_ = Run(PROP, tier, "exploration", RULE)
-    n = 3 if tier == "quick" else 40
+    n = 3 if tier == "quick" else thorough(16)
     for part in run_shards(shard, 16, n=n, seed=verif_seed()):
         run_.merge(part)
     run_.assumptions = [
